@@ -24,6 +24,16 @@ type atomOp struct {
 type atomPlan struct {
 	Mode string   `json:"mode"` // eval evalsha evalro evalrosha evalna evalnasha
 	Ops  []atomOp `json:"ops"`
+	// Mut: a statement that reassigns one of the per-call globals, executed
+	// before op number MutAt. The script must stay what it is: same
+	// permissions, same locking, no hang.
+	Mut   string `json:"mut,omitempty"`
+	MutAt int    `json:"mut_at,omitempty"`
+}
+
+var atomMuts = []string{
+	"EVAL_CMD = 'eval'", "EVAL_CMD = 'evalsha'", "EVAL_CMD = 'evalro'", "EVAL_CMD = 'evalrosha'", "EVAL_CMD = 'evalna'", "EVAL_CMD = 'evalnasha'",
+	"EVAL_CMD = nil", "_G.EVAL_CMD = 'evalna'", "_G['EVAL_CMD'] = 'eval'", "KEYS = nil", "ARGV = nil", "KEYS, ARGV = ARGV, KEYS",
 }
 
 // normalize makes the number of marker writes even, so that a script that
@@ -43,8 +53,11 @@ func (p *atomPlan) normalize() {
 // script renders the plan; ws is the sequence of marker ids it writes.
 func (p atomPlan) script() (src string, ws []string) {
 	var b strings.Builder
-	b.WriteString("local r = {}\n")
-	for _, op := range p.Ops {
+	b.WriteString("local r = {}\nlocal tok = ARGV[1]\n")
+	for i, op := range p.Ops {
+		if p.Mut != "" && i == p.MutAt {
+			b.WriteString(p.Mut + "\n")
+		}
 		switch op.Kind {
 		case "r1":
 			b.WriteString("r[#r+1] = tile38.call('GET','k','id1')\n")
@@ -56,7 +69,7 @@ func (p atomPlan) script() (src string, ws []string) {
 				id = "b"
 			}
 			ws = append(ws, id)
-			fmt.Fprintf(&b, "r[#r+1] = tile38.pcall('SET','m','%s','STRING',ARGV[1])\n", id)
+			fmt.Fprintf(&b, "r[#r+1] = tile38.pcall('SET','m','%s','STRING',tok)\n", id)
 		case "busy":
 			fmt.Fprintf(&b, "do local x = 0 for i = 1, %d do x = x + 1 end r[#r+1] = x end\n", op.N)
 		}
@@ -68,6 +81,9 @@ func (p atomPlan) script() (src string, ws []string) {
 func (p atomPlan) shape() string {
 	var b strings.Builder
 	b.WriteString(p.Mode + ":")
+	if p.Mut != "" {
+		b.WriteString("{" + p.Mut + "}")
+	}
 	for _, op := range p.Ops {
 		switch op.Kind {
 		case "busy":
@@ -108,6 +124,10 @@ func drawAtomPlan(rt *rapid.T) atomPlan {
 		calls++
 	}
 	p.normalize()
+	if rapid.IntRange(0, 2).Draw(rt, "mut?") == 0 {
+		p.Mut = rapid.SampledFrom(atomMuts).Draw(rt, "mut")
+		p.MutAt = rapid.IntRange(0, len(p.Ops)-1).Draw(rt, "mutat")
+	}
 	return p
 }
 
@@ -129,6 +149,7 @@ type atomEnv struct {
 	ctr                        [2]int64
 	caseNo                     int
 	base                       time.Time
+	hung                       bool
 }
 
 const pairScript = "tile38.call('SET','m','a','STRING',ARGV[1]) local x = 0 for i = 1, 2000 do x = x + 1 end tile38.call('SET','m','b','STRING',ARGV[1]) return 1"
@@ -183,6 +204,9 @@ func (e *atomEnv) runCase(t ev.Failer, c *ev.Collector, p atomPlan) atomResult {
 	t.Helper()
 	var res atomResult
 	label := func(s string) { res.labels = append(res.labels, s) }
+	if e.hung {
+		c.Fail(t, "server-hang", "the server of this sub-check stopped answering in an earlier case", map[string]any{"plan": p})
+	}
 	e.caseNo++
 	tok := fmt.Sprintf("t%d", e.caseNo)
 	itok := fmt.Sprintf("i%d", e.caseNo)
@@ -296,6 +320,11 @@ func (e *atomEnv) runCase(t ev.Failer, c *ev.Collector, p atomPlan) atomResult {
 		time.Sleep(20 * time.Microsecond)
 	}
 	stop.Store(true)
+	if serr == t38.ErrHang {
+		// do not wait for the other clients: they are stuck behind the same lock
+		e.hung = true
+		fail("server-hang", fmt.Sprintf("the script got no reply within %v (the other clients are stuck too)", t38.ReplyTimeout))
+	}
 	wg.Wait()
 	for i := 0; i < 2; i++ {
 		if n := len(wrecs[i]); n > 0 {
